@@ -462,6 +462,26 @@ int main(void)
 			counting = 0;
 			show(0, -1);
 		}
+		else if (NW == 2 && !strcmp(W[0], "setd"))
+		{
+			struct json_object *o = node(W[1], &ok);
+			if (!ok || json_object_get_type(o) != json_type_double) { puts("harness: bad operand"); continue; }
+			counting = 1;
+			int r = json_object_set_double(o, 2.25);
+			counting = 0;
+			show(r, -1);
+		}
+		else if (NW == 3 && !strcmp(W[0], "setserp"))
+		{
+			/* a user-installed serializer that is one of the library's own public functions */
+			struct json_object *o = node(W[1], &ok);
+			if (!ok) { puts("harness: dead handle"); continue; }
+			void *ud = (void *)(uintptr_t)(strtol(W[2], NULL, 10) + 1);
+			counting = 1;
+			json_object_set_serializer(o, json_object_userdata_to_json_string, ud, on_delete);
+			counting = 0;
+			show(0, -1);
+		}
 		else if (NW == 3 && !strcmp(W[0], "copy"))
 		{
 			struct json_object *o = node(W[1], &ok);
